@@ -114,6 +114,7 @@ type osess struct {
 	proxies []string
 	lp      int
 	pass    bool
+	user    string
 }
 
 type snap struct {
@@ -146,6 +147,7 @@ type caseCtx struct {
 	plug              *plugStub
 	expiredRefused    int
 	lastLoginKey      string
+	forceLP           string // force the next Login plugin answer: same | user | goodkey | badkey | reject
 }
 
 func (cx *caseCtx) fail(key, what string) {
@@ -173,7 +175,7 @@ func (cx *caseCtx) snapshot() snap {
 				lp = i
 			}
 		}
-		sn.sessions = append(sn.sessions, osess{rid: v.RunID, pool: v.PoolLen, proxies: v.Proxies, lp: lp, pass: v.AlwaysPass})
+		sn.sessions = append(sn.sessions, osess{rid: v.RunID, pool: v.PoolLen, proxies: v.Proxies, lp: lp, pass: v.AlwaysPass, user: v.User})
 	}
 	sn.pxys = cx.s.Svc.VerifC04ProxyNames()
 	if oc, ok := cx.s.Svc.VerifC04AuthVerifier().(*auth.OidcAuthConsumer); ok {
@@ -210,7 +212,7 @@ func bytesList(xs []string) string {
 func (sn snap) coq() string {
 	ss := make([]string, len(sn.sessions))
 	for i, o := range sn.sessions {
-		ss[i] = fmt.Sprintf("c4OS %s %d %s %s %s", hx.HxS(o.rid), o.pool, bytesList(o.proxies), hx.Z(int64(o.lp)), hx.Bool(o.pass))
+		ss[i] = fmt.Sprintf("c4OS %s %d %s %s %s %s", hx.HxS(o.rid), o.pool, bytesList(o.proxies), hx.Z(int64(o.lp)), hx.Bool(o.pass), hx.HxS(o.user))
 	}
 	return fmt.Sprintf("(c4SN %s %s %s)", hx.List(ss), bytesList(sn.pxys), bytesList(sn.subjects))
 }
@@ -353,9 +355,37 @@ func (cx *caseCtx) stepLoginCred(internal bool, cr cred, rid string, alwaysPass 
 	lm := &msg.Login{Version: "0.61.0", Hostname: "h", Os: "linux", Arch: "amd64", User: user, PrivilegeKey: cr.key,
 		Timestamp: cr.ts, RunID: rid, PoolCount: pool, Metas: map[string]string{},
 		ClientSpec: msg.ClientSpec{Type: specType, AlwaysAuthPass: alwaysPass}}
+	lterm := func(key string, ts int64, usr string) string {
+		return fmt.Sprintf("(c4L %s %s %s %s %s %s %s)", hx.HxS(rid), cx.keyTerm(key), hx.Z(ts), hx.HxS(usr), hx.Z(int64(pool)), hx.HxS(specType), hx.Bool(alwaysPass))
+	}
+	plugTerm := "AuLPlugSame"
+	if cx.plug != nil {
+		r := cx.g.Intn(100)
+		if f, ok := map[string]int{"same": 0, "user": 30, "goodkey": 45, "badkey": 60, "reject": 80}[cx.forceLP]; ok {
+			r = f
+		}
+		cx.forceLP = ""
+		switch {
+		case r < 30:
+			cx.plug.setLogin(plugBehaviour{kind: "same"})
+		case r < 45: // only the identity changes
+			cx.plug.setLogin(plugBehaviour{kind: "rewrite", setUser: true, user: "plug-user"})
+			plugTerm = "(AuLPlugRewrite " + lterm(cr.key, cr.ts, "plug-user") + ")"
+		case r < 60: // the plugin supplies a valid credential
+			c2 := cx.makeCred(true)
+			cx.plug.setLogin(plugBehaviour{kind: "rewrite", setKey: true, key: c2.key, ts: c2.ts, setUser: true, user: "brokered"})
+			plugTerm = "(AuLPlugRewrite " + lterm(c2.key, c2.ts, "brokered") + ")"
+		case r < 80: // the plugin replaces the credential by an invalid one
+			c2 := cx.makeCred(false)
+			cx.plug.setLogin(plugBehaviour{kind: "rewrite", setKey: true, key: c2.key, ts: c2.ts})
+			plugTerm = "(AuLPlugRewrite " + lterm(c2.key, c2.ts, user) + ")"
+		default:
+			cx.plug.setLogin(plugBehaviour{kind: "reject"})
+			plugTerm = "AuLPlugReject"
+		}
+	}
 	evf := func(gen string) string {
-		return fmt.Sprintf("AuEFirst %s %d %d %s (AuFLogin (c4L %s %s %s %s %s %s %s))", hx.Bool(internal), connID, now, hx.HxS(gen),
-			hx.HxS(rid), cx.keyTerm(cr.key), hx.Z(cr.ts), hx.HxS(user), hx.Z(int64(pool)), hx.HxS(specType), hx.Bool(alwaysPass))
+		return fmt.Sprintf("AuEFirst %s %d %d %s (AuFLogin %s %s)", hx.Bool(internal), connID, now, hx.HxS(gen), lterm(cr.key, cr.ts, user), plugTerm)
 	}
 	kind := "login"
 	if internal {
@@ -879,7 +909,7 @@ func runCase(seed int64, idx int, addr string, sc scenario, ow *oidcWorld) (stri
 		}
 		configureTransport(c, addr, sc.transport)
 		if cx.plug != nil {
-			c.HTTPPlugins = []v1.HTTPPluginOptions{{Name: "c04-stub", Addr: cx.plug.addr, Path: "/handler", Ops: []string{"NewWorkConn"}}}
+			c.HTTPPlugins = []v1.HTTPPluginOptions{{Name: "c04-stub", Addr: cx.plug.addr, Path: "/handler", Ops: []string{"Login", "NewWorkConn"}}}
 		}
 	}
 	// the bind port is probed and then bound (hx.FreePort): another check running at the same time may take it in between
@@ -951,6 +981,15 @@ func runCase(seed int64, idx int, addr string, sc scenario, ow *oidcWorld) (stri
 			cx.randomStep(pBad)
 		}
 		if sc.plugin {
+			// the Login plugin chain is consulted on the internal listener with the always-pass flag too
+			cx.forceLP = "reject"
+			cx.stepLogin(true, false, "", true, 1, "ssh-tunnel")
+			cx.forceLP = "user"
+			cx.stepLogin(cx.g.Chance(0.3), true, "", false, 1, "")
+			cx.forceLP = "badkey"
+			cx.stepLogin(false, true, "", false, 1, "")
+			cx.forceLP = "goodkey"
+			cx.stepLogin(false, false, "", false, 1, "")
 			for i := 0; i < 6; i++ {
 				if lv := cx.live(); len(lv) > 0 {
 					cx.stepWorkConn(false, lv[cx.g.Intn(len(lv))].rid, cx.g.Chance(0.6))
@@ -1127,7 +1166,11 @@ func runAuth(cfg *hx.RunCfg) error {
 			"Definition NPLUGREWRITEREFUSED := Eval vm_compute in c04_count_rewrite_refused cases.\nPrint NPLUGREWRITEREFUSED.\n" +
 			"Definition NPLUGREWRITEPOOLED := Eval vm_compute in c04_count_rewrite_pooled cases.\nPrint NPLUGREWRITEPOOLED.\n" +
 			"Definition NPLUGREJECT := Eval vm_compute in c04_count_code 39 cases.\nPrint NPLUGREJECT.\n" +
-			"Definition NEMPTYTOKENREFUSED := Eval vm_compute in c04_count_empty_token_refused cases.\nPrint NEMPTYTOKENREFUSED.\n",
+			"Definition NEMPTYTOKENREFUSED := Eval vm_compute in c04_count_empty_token_refused cases.\nPrint NEMPTYTOKENREFUSED.\n" +
+			"Definition NLOGINPLUGBADKEY := Eval vm_compute in c04_count_login_plugin_rewrite_refused cases.\nPrint NLOGINPLUGBADKEY.\n" +
+			"Definition NLOGINPLUGOK := Eval vm_compute in c04_count_login_plugin_rewrite_ok cases.\nPrint NLOGINPLUGOK.\n" +
+			"Definition NLOGINPLUGREJECT := Eval vm_compute in c04_count_code 19 cases.\nPrint NLOGINPLUGREJECT.\n" +
+			"Definition NINTERNALPASSPLUGREJECT := Eval vm_compute in c04_count_internal_pass_plugin_reject cases.\nPrint NINTERNALPASSPLUGREJECT.\n",
 	}
 	dist := map[string]int{}
 	distinct := map[string]bool{}
